@@ -124,6 +124,7 @@ def r10_no_lossy_dumps(P, rep, ctx):
 
 
 PARTIAL_MODULE_STATE = {"_partials", "_forwardrefs"}
+VALUE_PATH_FUNCS = {"_to_partial_value", "_update_field", "merge_with", "merge", "to_partial", "cast", "from_partial", "_get_field_vals", "val_from_partial", "_unpartial_fields"}
 
 
 def r11_no_new_module_state(P, rep, ctx):
@@ -139,6 +140,13 @@ def r11_no_new_module_state(P, rep, ctx):
         mutable = isinstance(val, (ast.Dict, ast.List, ast.Set, ast.DictComp, ast.ListComp, ast.SetComp)) or (isinstance(val, ast.Call) and norm(val.func).split(".")[-1] in ("dict", "list", "set", "defaultdict", "OrderedDict", "WeakValueDictionary", "WeakKeyDictionary", "lru_cache", "deque"))
         if not mutable:
             continue
+        if tg.id not in PARTIAL_MODULE_STATE:
+            # a further table is judged by where it is used: on the VALUE path of merging / converting (then results depend on
+            # history), or only where partial classes are built (class-keyed bookkeeping like the two existing tables)
+            users = sorted({fi.name for fi in P.functions.values() if fi.module.name == "schema.partial" and any(isinstance(x, ast.Name) and x.id == tg.id for x in ast.walk(fi.node))})
+            if users and not (set(users) & VALUE_PATH_FUNCS):
+                rep.info(f"C14.R11: new module-level table {tg.id} is only used by {users} (class construction, not the value path): not judged")
+                continue
         rep.check(tg.id in PARTIAL_MODULE_STATE, "C14.R11", "schema.partial", f"module-level table {tg.id} is one of the two class tables", f"{m.relpath}:{st.lineno}", construct=f"module-level {tg.id}",
                   message=f"schema/partial.py keeps a new module-level mutable table `{tg.id}`: results of merging now depend on earlier merges (a cached conversion of an object that was changed since is merged with its old values)")
     decos = [(fi, d) for fi in P.functions.values() if fi.module.name == "schema.partial" and isinstance(fi.node, ast.FunctionDef) for d in fi.node.decorator_list if norm(d).split("(")[0].split(".")[-1] in ("lru_cache", "cache", "cached_property", "memoize")]
